@@ -96,6 +96,29 @@ func genC04(t *rapid.T, all bool) c04Case {
 			c.Run.Stop = c.Run.Start + 1
 		}
 	}
+	if c.Run.TailLag == 0 && rapid.IntRange(0, 3).Draw(t, "skipped") == 0 {
+		// a chain that skips block numbers, at the places that matter: the start block, the segment boundaries (where
+		// the hand-off lies), the blocks next to them
+		n := rapid.IntRange(1, 3).Draw(t, "nskipped")
+		for i := 0; i < n; i++ {
+			var h uint64
+			switch rapid.IntRange(0, 3).Draw(t, "skipwhere") {
+			case 0:
+				h = c.Run.Start
+			case 1:
+				h = c.Seg * rapid.Uint64Range(1, 7).Draw(t, "skipboundary")
+			case 2:
+				h = c.Run.Start + rapid.Uint64Range(0, 2*c.Seg).Draw(t, "skipnear")
+			default:
+				h = rapid.Uint64Range(1, c.Head-1).Draw(t, "skipany")
+			}
+			// the block tier1 is told is final exists, and so does the head
+			if h == 0 || h >= c.Head || h == c.Run.Final || h <= world.FSB() {
+				continue
+			}
+			c.Run.Skipped = append(c.Run.Skipped, h)
+		}
+	}
 	// (no injected failure for final_blocks_only requests: the failing block may never become final)
 	if !c.Run.FinalOnly && rapid.IntRange(0, 5).Draw(t, "fail") == 0 && alwaysRuns(c.Prog, c.Run.Output) {
 		hi := c.Run.Stop
@@ -104,6 +127,11 @@ func genC04(t *rapid.T, all bool) c04Case {
 		}
 		if hi > c.Run.Start+1 {
 			c.FailAt = rapid.Uint64Range(c.Run.Start+1, hi-1).Draw(t, "failat")
+			for _, h := range c.Run.Skipped {
+				if h == c.FailAt {
+					c.FailAt = 0 // the failing block must exist
+				}
+			}
 		}
 	}
 	return c
@@ -240,9 +268,16 @@ func checkC04(c c04Case) (*ev.Failure, c04Stats) {
 		}
 	}
 	st.crossesHandoff = below > 0 && above > 0
-	// completeness: every block from the hand-off on, and every block in development mode
+	// completeness: every block (that the chain has) from the hand-off on, and every block in development mode
+	exists := map[uint64]bool{}
+	for _, stp := range chainFor(spec, c.Head) {
+		exists[stp.Num] = true
+	}
 	for b := spec.Start; b < end; b++ {
 		if delivered[b] != nil {
+			continue
+		}
+		if !exists[b] {
 			continue
 		}
 		if b >= H {
@@ -343,7 +378,7 @@ func runC04(t *testing.T, test string, all bool) {
 }
 
 func TestC04(t *testing.T) {
-	ev.Get("C04", "Delivery").Rule = "rapid: small programs (a store feeding an output map that is empty on some blocks), both modes, starts on/off boundaries, stops before/at/after the hand-off or unbounded, linear part emitted as final blocks; monitor over the response sequence (session first, range, strictly increasing, no duplicate, no gap from the hand-off on nor in dev mode, cursor decodes to the message's block); resumption from the cursor of 2..5 sampled delivered messages plus the ones around the hand-off (same cache or empty cache) must yield exactly the messages that followed; 1 case in 6 makes the output module fail at a block: error reported, nothing delivered after it; non-trivial = the range crosses the hand-off with deliveries on both sides and a resume position that is neither first nor last"
+	ev.Get("C04", "Delivery").Rule = "rapid: small programs (a store feeding an output map that is empty on some blocks), both modes, starts on/off boundaries, stops before/at/after the hand-off or unbounded, linear part emitted as final blocks; one case in four on a chain that skips 1..3 block numbers (at the start block, at segment boundaries, next to them); monitor over the response sequence (session first, range, strictly increasing, no duplicate, no gap from the hand-off on nor in dev mode, cursor decodes to the message's block); resumption from the cursor of 2..5 sampled delivered messages plus the ones around the hand-off (same cache or empty cache) must yield exactly the messages that followed; 1 case in 6 makes the output module fail at a block: error reported, nothing delivered after it; non-trivial = the range crosses the hand-off with deliveries on both sides and a resume position that is neither first nor last"
 	runC04(t, "Delivery", false)
 }
 
